@@ -89,6 +89,19 @@ CLAIMED.update({
    technique=GH2),
 })
 
+CLAIMED.update({
+ "C02": dict(category="proof",
+   text="Per-priority ghost sequences gIn[p][0..gInN[p]) record every item received from the input registered under p (the receive is syntactically on inputs[p].Channel and p must be configured); the send hook on the output requires: an item is pending, it is delivered under the priority it was read under, it is the element just received, and its position is exactly gOutNP[p] (no gap, no duplicate, FIFO); a second receive while an item is pending is an obligation failure (a dropped item); between items and at close(output) / Complete every gOutNP[p] == gInN[p]. With Go channel FIFO semantics this is exactly-once, correctly tagged, in-order delivery of everything written before the inputs were closed. v1 under Stop/cancel: the weaker in-order, duplicate-free subsequence form. v1 Simple: a handler calls Handle exactly once for each received item before releasing it under its priority. Not covered: v2 simple package (see notes).",
+   design_ref="DESIGN.md §7 C02",
+   note=TB + "Go channel FIFO/exactly-once; release protocol as for C01.",
+   technique=GH2),
+ "C16": dict(category="proof",
+   text="Stop-responsiveness as ghost obligations over the v1 join, priority and Simple goroutines. Rule SB (syntactic over the typed AST): every operation that can block in the functions reachable from a goroutine entry is a select containing every stop role of that goroutine, a select with default, or is listed with the reason why it completes. Rule SE (symbolic execution + SMT feasibility): every feasible path through one iteration of an unbounded loop passes a poll of the stop signals whose stop branch leaves the loop (callee polls expose their outcome through contracts). Orderings: join closes its output before breaker.Complete(); priority sends nothing after Complete(); Simple calls priority.Stop(), cancel(), wg.Wait() before Complete() (no Handle running); whatever is delivered after a stop is an in-order duplicate-free subsequence (C02's weak form). Two genuine hangs were found by these rules, replayed on the real code and repaired. Under Go's random choice among ready select cases SB+SE give termination with probability 1; a numeric time bound is NOT decided.",
+   design_ref="DESIGN.md §7 C16, Appendix B, §8.3, §8.4",
+   note=TB + "assumes uniformly random select among ready cases, breaker.Break() returns once Complete() was called, Handle honours its context; the listed 'blocking-ok' reasons are assumptions reported in the evidence.",
+   technique="contract-based deductive verification plus a stop-responsiveness rule decided by symbolic path feasibility (SMT) over the contracts; z3/cvc5"),
+})
+
 NA = {
  "C19": "termination of goroutines over all schedules is a liveness property; the VC generator proves partial correctness of sequential code only (DESIGN.md §9)",
 }
